@@ -92,7 +92,7 @@ func flattenString(t *ir.Term) []string {
 }
 
 func c17(c *Ctx) {
-	c.R.Explanation = "C17 decided on the SSA of /repo. R-paths = the values stored into HwMonFanConfig.{RpmInputPath,PwmPath,PwmEnablePath} normalise (through path.Join / fmt.Sprintf / Itoa / +) to SysfsPath/fan<RpmChannel>_input, SysfsPath/pwm<PwmChannel>, SysfsPath/pwm<PwmChannel>_enable of the same config object, and every I/O call of every HwMonFan method uses exactly the designated path field (GetRpm: RpmInputPath; GetPwm/SetPwm: PwmPath; Get/SetPwmEnabled: PwmEnablePath). R-match = in the fan binding function a candidate device is accepted (its sysfs path copied into the entry) only on paths that crossed: platform regexp matched, (entry.Index <= 0 or candidate.Index == entry.Index) and (entry.RpmChannel <= 0 or candidate.RpmChannel == entry.RpmChannel); the copied values come from that candidate. R-default = the entry's PwmChannel is overwritten only under PwmChannel == 0 and with the candidate's channel; the paths are (re)computed after the acceptance on every path to the nil return. R-fail = every return that avoids the acceptance carries a non-nil error. R-bind-sensor = in start-up sensor binding, a hwmon sensor object is created only on paths (tracked through the boolean 'found' flag) on which TempInput was stored, that store being dominated by platform-matched and by the comma-ok of the index lookup; otherwise an error is returned. R-position = the discovery function keys the per-chip sensor map, and fills HwmonSensor.Index, with a counter incremented once per accepted temperature input (position), not with a number taken from the device name. R-nocrash = no map-lookup dereference with ignored ok, non-comma-ok type assertion or panic in the binding code. R-holes = a list of pointers created with make([]*T, n), n != 0, in the discovery/binding packages stores its slot in every iteration of the filling loop (the binders dereference every element without a nil test). Not decided: regexp semantics; enumeration-order independence beyond 'first match among chips matching the pattern'."
+	c.R.Explanation = "C17 decided on the SSA of /repo. R-paths = the values stored into HwMonFanConfig.{RpmInputPath,PwmPath,PwmEnablePath} normalise (through path.Join / fmt.Sprintf / Itoa / +) to SysfsPath/fan<RpmChannel>_input, SysfsPath/pwm<PwmChannel>, SysfsPath/pwm<PwmChannel>_enable of the same config object, and every I/O call of every HwMonFan method uses exactly the designated path field (GetRpm: RpmInputPath; GetPwm/SetPwm: PwmPath; Get/SetPwmEnabled: PwmEnablePath). R-match = in the fan binding function a candidate device is accepted (its sysfs path copied into the entry) only on paths that crossed: platform regexp matched, (entry.Index <= 0 or candidate.Index == entry.Index) and (entry.RpmChannel <= 0 or candidate.RpmChannel == entry.RpmChannel); the copied values come from that candidate. R-default = the entry's PwmChannel is overwritten only under PwmChannel == 0 and with the candidate's channel; the paths are (re)computed after the acceptance on every path to the nil return. R-fail = every return that avoids the acceptance carries a non-nil error. R-bind-sensor = in start-up sensor binding, a hwmon sensor object is created only on paths (tracked through the boolean 'found' flag) on which TempInput was stored, that store being dominated by platform-matched and by the comma-ok of the index lookup; otherwise an error is returned. R-position = the discovery function keys the per-chip sensor map, and fills HwmonSensor.Index, with a counter incremented once per accepted temperature input (position), not with a number taken from the device name. R-nocrash = no map-lookup dereference with ignored ok, non-comma-ok type assertion or panic in the binding code. R-holes = a list of pointers created with make([]*T, n), n != 0, in the discovery/binding packages stores its slot in every iteration of the filling loop (the binders dereference every element without a nil test). R-alias = no append in the discovery / instantiation packages targets a re-slice of a parameter list (in-place filtering rearranges the caller's device list). R-match follows the acceptance and the comparisons into helpers of the binding function (parameters resolved to the caller's arguments; a boolean predicate helper establishes a clause when it can return true only across an edge or with a result that establishes it; short-circuit values kept in locals are followed path-sensitively). Not decided: regexp semantics; enumeration-order independence beyond 'first match among chips matching the pattern'."
 	tb := ir.NewTB(c.P.IsRepoFunc, c.P.FuncKey)
 
 	// ---- R-paths: construction ------------------------------------------------------
